@@ -7,5 +7,15 @@ export GOFLAGS=-mod=mod GOPROXY=off GOSUMDB=off GOTOOLCHAIN=local CGO_ENABLED=1
 export VERIF_ROOT="$PWD"
 export REPO="${REPO:-/repo}"
 mkdir -p bin evidence replays .work
+# The checks compile thousands of generated packages; every distinct /repo state adds a few
+# GiB to Go's build cache. Keep the disk bounded: start from a cold cache beyond 12 GiB
+# (costs ~20 s of rebuilding on the next run, nothing else).
+cache_dir="$(go env GOCACHE 2>/dev/null)"
+if [ -n "$cache_dir" ] && [ -d "$cache_dir" ]; then
+  cache_mb=$(timeout 20 du -sm "$cache_dir" 2>/dev/null | cut -f1)
+  if [ -n "${cache_mb:-}" ] && [ "$cache_mb" -gt 12288 ]; then go clean -cache >/dev/null 2>&1; fi
+fi
+# stale scratch directories of killed runs
+find .work -mindepth 1 -maxdepth 1 -type d -mmin +120 -exec rm -rf {} + 2>/dev/null
 (cd harness && go build -o ../bin/vcheck ./cmd/vcheck) || { echo "BUILD-FAILED: controller" >&2; exit 2; }
 exec ./bin/vcheck "$@"
